@@ -5,7 +5,7 @@ From Coq Require Import ExtrOcamlBasic.
 From SonicV Require Import Base.Blocks Spec.Ref Spec.Num Spec.SortKeys
   Model.Err Model.Bitmap Model.PrefixXor Model.Bracket Model.Escape Model.SkipStr Model.SkipNum
   Model.Skip Model.Number Model.Inplace Model.Visitor Model.Cas Model.Arc Model.ObjEq Model.Many
-  Model.Promote Model.Pretty Model.SerRoundTrip Model.NodeBudget Model.Latch Model.SkipAll Model.Meta Model.SerAll Model.TablesDefs Model.SerVal Model.DomOps Model.Simd.
+  Model.Promote Model.Pretty Model.SerRoundTrip Model.NodeBudget Model.Latch Model.SkipAll Model.Meta Model.SerAll Model.TablesDefs Model.SerVal Model.DomOps Model.Simd Gen.Funcs.
 Set Extraction KeepSingleton.
 Separate Extraction
   Spec.Ref Spec.Num Spec.SortKeys.sort_tree
@@ -31,4 +31,5 @@ Separate Extraction
   Model.SerVal.expect Model.SerVal.matches
   Model.DomOps.step Model.DomOps.run
   Model.Simd.mask_eq Model.Simd.mask_le_u Model.Simd.mask_gt_u Model.Simd.mask_le_i Model.Simd.mask_gt_i
-  Model.Simd.first_offset Model.Simd.before Model.Simd.clear_high_bits Model.Simd.nonspace_bits.
+  Model.Simd.first_offset Model.Simd.before Model.Simd.clear_high_bits Model.Simd.nonspace_bits
+  Gen.Funcs.
